@@ -481,13 +481,25 @@ class Sim:
 
         async def go():
             repo = await self.session(op.get('client', 0), u)
-            await repo.delete_snapshots([v.name for v in victims], confirm=False)
+            if op.get('answer'):
+                await repo.delete_snapshots([v.name for v in victims])
+            else:
+                await repo.delete_snapshots([v.name for v in victims], confirm=False)
         raised = None
+        import replicat.repository as _R
+        if op.get('answer'):
+            self.events.add('delete-confirmed-at-the-prompt')
+            _R.input = lambda prompt='', _a=op['answer']: _a        # shadows the builtin for that module only
         try:
             with self._failing_delete(op.get('fail_delete'), op.get('fail_kinds')):
                 self.run(go())
         except Exception as e:
             raised = e
+        finally:
+            if op.get('answer'):
+                del _R.input
+        if raised is not None:
+            e = raised
             if not op.get('fail_delete'):
                 return fail('delete-error', f'delete of own snapshots raised {type(e).__name__}: {e}')
         after = self.store.snapshot_objects()
@@ -966,8 +978,10 @@ def make_machine(prop, tier, ctx, *, checks, encrypted=None, weights=None, extra
         lambda u, f, c, b: {'op': 'snapshot', 'user': u, 'files': f, 'client': c, 'note': True, 'bulk': b})
     add('add_user', w['add_user'], dict(k=st.sampled_from(['shared', 'clone', 'independent']), of=small, kdf=st.integers(0, 2)),
         lambda k, of, kdf: {'op': 'add_user', 'kind': k, 'of': of, 'kdf': kdf})
-    add('delete', w['delete'], dict(u=small, p=st.lists(small, min_size=1, max_size=3), c=st.integers(0, 2)),
-        lambda u, p, c: {'op': 'delete', 'user': u, 'picks': p, 'client': c})
+    # 'answer': the command asks "Proceed? [y/n]" as it does by default on the command line and the user says yes
+    add('delete', w['delete'], dict(u=small, p=st.lists(small, min_size=1, max_size=3), c=st.integers(0, 2),
+                                    a=st.sampled_from([None, None, 'y', 'Y'])),
+        lambda u, p, c, a: {'op': 'delete', 'user': u, 'picks': p, 'client': c, **({'answer': a} if a else {})})
     add('clean', w['clean'], dict(u=small, c=st.integers(0, 2)), lambda u, c: {'op': 'clean', 'user': u, 'client': c})
     fk = st.sampled_from([['delete'], ['delete'], ['download'], ['download'], ['list_files'], ['exists', 'download', 'delete']])
     add('faulty_delete', w['faulty'], dict(u=small, p=st.lists(small, min_size=1, max_size=3), n=st.integers(1, 4), k=fk),
